@@ -200,6 +200,62 @@ async def apoke(self, *a, **kw):
 RecMixin.poke = poke
 RecMixin.apoke = apoke
 
+# snapshots taken WHILE AN EVENT IS BEING PROCESSED: the named callback `snap` (a persistence hook) pickles the machine it
+# belongs to from inside the event; `aslow` suspends the event of one model so that the harness can pickle the
+# machine from another coroutine meanwhile (async classes).  Only armed while the harness drives the original.
+SNAP = {'armed': False, 'out': [], 'protocol': 4}
+GATE = {'gate': None, 'reached': None}
+
+
+def take_snapshot(mach, where):
+    try:
+        rig = Rig(mach, list(mach.models), [], [])
+        attr = mach.model_attribute
+        info = {'where': where, 'fp': fingerprint(rig), 'recs': recs(rig),
+                'raw': [copy.deepcopy(getattr(m, attr, None)) for m in mach.models]}
+        # the tables at this very instant (incl. IdentManager.current) for the correspondence with the Lean model
+        numb, sti = Numbering(), StateIndex()
+        objs = []
+        for i, m in enumerate(mach.models):
+            numb.add(m, 1 + i)
+            objs.append(m)
+        for j, c in enumerate(mach.__dict__.get('machine_context', [])):
+            numb.add(c, 10 + j)
+            objs.append(c)
+        n = 20
+        for l in mach.__dict__.get('model_context_map', {}).values():
+            for c in l:
+                if id(c) not in numb.by_id:
+                    numb.add(c, n)
+                    objs.append(c)
+                    n += 1
+        info.update(numb=numb, sti=sti, objs=objs, tab=tables_of(rig, numb, sti))
+        info['blob'] = pickle.dumps((mach, objs), protocol=SNAP['protocol'])
+        SNAP['out'].append(info)
+    except Exception as e:   # noqa: BLE001 — judged by the harness afterwards, the event itself goes on
+        SNAP['out'].append({'where': where, 'error': '%s: %s' % (type(e).__name__, e)})
+
+
+def snap(self, *a, **kw):
+    self._note('snap', a, kw)
+    if SNAP['armed'] and len(SNAP['out']) < 2:
+        mach = machine_of(self)
+        if mach is not None:
+            take_snapshot(mach, 'callback')
+
+
+async def aslow(self, *a, **kw):
+    self._note('aslow', a, kw)
+    if GATE['gate'] is not None:
+        GATE['reached'].set()
+        await GATE['gate'].wait()
+    else:
+        await asyncio.sleep(0)
+
+
+RecMixin.snap = snap
+RecMixin.aslow = aslow
+
 
 class RecModel(RecMixin):
     def __init__(self, tag, sched, attr='state'):
@@ -400,6 +456,36 @@ def gen_case(rng, cls_name, tier):
     initial = rng.choice(paths)
     hl = rng.randint(0, 5 if tier == 'quick' else 7)
     hist = [gen_item(rng, nm, events, paths, opts, prefix=True) for _ in range(hl)]
+    if opts['queued'] is False and rng.random() < 0.3:
+        # mid-event snapshots (queues stay empty: the machine is not queued): a `snap` hook somewhere, and for the
+        # async classes a slow callback plus history items during which the harness pickles concurrently
+        def all_states(lst):
+            for d in lst:
+                yield d
+                for k in ('children', 'parallel'):
+                    for x in all_states(d.get(k, [])):
+                        yield x
+        sds = list(all_states(specs))
+        for _ in range(rng.randint(1, 2)):
+            r = rng.random()
+            if r < 0.35:
+                opts.setdefault(rng.choice(['after_state_change', 'before_state_change', 'prepare_event', 'finalize_event']), []).append('snap')
+            elif r < 0.7:
+                rng.choice(sds).setdefault(rng.choice(['on_enter', 'on_enter', 'on_exit']), []).append('snap')
+            else:
+                rng.choice(trans).setdefault(rng.choice(['before', 'after', 'prepare']), []).append('snap')
+        if asy:
+            for _ in range(rng.randint(1, 2)):
+                if rng.random() < 0.5:
+                    rng.choice(sds).setdefault('on_enter', []).append('aslow')
+                else:
+                    rng.choice(trans).setdefault(rng.choice(['before', 'after']), []).append('aslow')
+            for i in range(len(hist)):
+                if hist[i][0] == 'trigger' and rng.random() < 0.6:
+                    hist[i] = ['concurrent', hist[i][1], hist[i][2]]
+            if not any(h[0] == 'concurrent' for h in hist):
+                hist.append(['concurrent', rng.randrange(3), rng.choice(events)])
+                hl += 1
     # the number of models may change through add_model items; continuation items pick models modulo the count
     conts = {}
     for p in range(hl + 1):
@@ -563,6 +649,11 @@ def apply_item(case, rig, item):
             if m is not None:
                 m.__dict__['peer'] = None
             return ['ret', True]
+        if kind == 'concurrent':
+            m = model_at(rig, item[1])
+            if m is None:
+                return ['skip']
+            return call(concurrent_event, rig, m, item[2])
         if kind == 'add_model':
             if len(rig.models) >= 5:
                 return ['skip']
@@ -574,6 +665,32 @@ def apply_item(case, rig, item):
     except Exception as e:     # noqa: BLE001 — exceptions are observations here
         return describe_exc(e, rig)
     raise common.MachineryError('bad history item %r' % (item,))
+
+
+async def concurrent_event(rig, m, ev):
+    """fire the event as a task; when it suspends in `aslow`, this coroutine (which is not processing anything) takes
+    a snapshot of the machine, then lets the event finish"""
+    GATE['gate'] = asyncio.Event()
+    GATE['reached'] = asyncio.Event()
+    try:
+        fn = getattr(m, ev, None)
+        if fn is None:
+            return ['exc', 'AttributeError']
+        t = asyncio.ensure_future(fn(7, k=1))
+        w = asyncio.ensure_future(GATE['reached'].wait())
+        await asyncio.wait([t, w], return_when=asyncio.FIRST_COMPLETED, timeout=30)
+        if not t.done() and w.done() and SNAP['armed'] and len(SNAP['out']) < 2:
+            take_snapshot(rig.machine, 'concurrent')
+        GATE['gate'].set()
+        if not w.done():
+            w.cancel()
+        try:
+            return ['ret', bool(await t)]
+        except Exception as e:   # noqa: BLE001
+            return describe_exc(e, rig)
+    finally:
+        GATE['gate'] = None
+        GATE['reached'] = None
 
 
 def model_states(rig):
@@ -619,7 +736,9 @@ def _names(l):
 
 
 def _state_fp(st):
-    d = {'name': st.name, 'on_enter': _names(st.on_enter), 'on_exit': _names(st.on_exit),
+    nm = getattr(st, '_name', None)      # the plain name: NestedState.name is prefixed by the scope of an event in progress
+    nm = st.name if nm is None else getattr(nm, 'name', nm)
+    d = {'name': nm, 'on_enter': _names(st.on_enter), 'on_exit': _names(st.on_exit),
          'final': bool(getattr(st, 'final', False)), 'ignore': st.ignore_invalid_triggers, 'cls': type(st).__name__}
     if hasattr(st, 'states'):
         d['initial'] = st.initial
@@ -640,8 +759,10 @@ def _event_fp(ev):
 def fingerprint(rig):
     m = rig.machine
     fp = {'cls': type(m).__name__, 'mro': [c.__name__ for c in type(m).__mro__]}
-    fp['states'] = [_state_fp(s) for s in m.states.values()]
-    fp['events'] = [_event_fp(e) for e in m.events.values()]
+    stack = m.__dict__.get('_stack')     # the global scope, also while an event is inside a nested one
+    top_states, top_events = (stack[0][1], stack[0][2]) if stack else (m.states, m.events)
+    fp['states'] = [_state_fp(s) for s in top_states.values()]
+    fp['events'] = [_event_fp(e) for e in top_events.values()]
     o = {}
     for k in ('send_event', 'ignore_invalid_triggers', 'model_attribute', 'name', 'model_override', 'auto_transitions',
               'title', 'show_conditions', 'show_state_attributes', 'auto_transitions_markup'):
@@ -657,7 +778,7 @@ def fingerprint(rig):
     fp['opts'] = o
     attr = m.model_attribute
     mods = []
-    names = [e for e in m.events]
+    names = [e for e in top_events]
     for mod in m.models:
         peer = mod.__dict__.get('peer')
         d = {'self': mod is m, 'tag': mod.__dict__.get('tag'), 'state': canon_state(getattr(mod, attr, None)),
@@ -761,7 +882,9 @@ def tables_of(rig, numb, sti):
     t = {'models': [numb.num(m) for m in mach.models],
          'mstate': [[numb.num(m), sti.of(canon_state(getattr(m, attr, None)))] for m in mach.models],
          'mctx': [numb.num(c) for c in d.get('machine_context', [])],
-         'ctx': [], 'graphs': [], 'qdict': []}
+         'ctx': [], 'graphs': [], 'qdict': [],
+         # IdentManager.current names the calling thread: it is inside an event of this (locked) machine
+         'ident': [1 if getattr(d.get('_ident'), 'current', 0) == threading.get_ident() else 0]}
     if 'model_context_map' in d:
         t['ctx'] = [[numb.key(k), [numb.num(c) for c in v]] for k, v in d['model_context_map'].items()]
     if 'model_graphs' in d:
@@ -781,6 +904,7 @@ def enc_tables(t):
     out += [len(t['ctx'])] + [x for k, v in t['ctx'] for x in [k, len(v)] + v]
     out += [len(t['graphs'])] + [x for e in t['graphs'] for x in e]
     out += [len(t['qdict'])] + [x for k, v in t['qdict'] for x in [k, len(v)] + v]
+    out += [t['ident'][0]]
     return out
 
 
@@ -814,6 +938,8 @@ def dec_tables(nums, pos):
             pos += 2 + ln
         return r
     t = {'models': nats(), 'mstate': pairs(), 'mctx': nats(), 'ctx': tab(), 'graphs': pairs(), 'qdict': tab()}
+    t['ident'] = [nums[pos]]
+    pos += 1
     return t, pos
 
 
@@ -996,8 +1122,116 @@ def kind_of(case):
 
 
 def known_signature(case, clause, detail=''):
-    """no open finding: every failing clause is a violation (the two former findings — locked graph classes,
+    """no open finding for snapshots of a machine at rest (mid-event snapshots: see midevent_signature): every failing clause is a violation (the two former findings — locked graph classes,
     async queued='model' — were repaired in /repo; their witnesses live in corpus/C15/ as regression cases)"""
+    return None
+
+
+def rig_of_copy(mach):
+    """a rig for a machine obtained by unpickling only: recording contexts are found in its own tables"""
+    mctx = [c for c in mach.__dict__.get('machine_context', []) if isinstance(c, RecCtx)]
+    seen = set(id(c) for c in mctx)
+    extra = []
+    for l in mach.__dict__.get('model_context_map', {}).values():
+        for c in l:
+            if isinstance(c, RecCtx) and id(c) not in seen:
+                seen.add(id(c))
+                extra.append(c)
+    return Rig(mach, list(mach.models), mctx, [extra])
+
+
+def judge_midevent(case, p, sn, fail, stats, reqs=None):
+    """a snapshot taken while an event was being processed (item p-1 of the history, queues empty): it must be
+    picklable, structurally the machine as it was at that instant, and react like a machine at rest with the same
+    configuration and the same model states (the unfinished part of the event lives on the call stack, not in the
+    machine)"""
+    tag = 'prefix %d, snapshot taken mid-event (%s) during %r' % (p, sn['where'], case['history'][p - 1])
+    if 'error' in sn:
+        fail('monitor', 'not-picklable-mid-event', '%s: %s' % (tag, sn['error']))
+        return
+    try:
+        cmach, cobjs = pickle.loads(sn['blob'])
+        C = rig_of_copy(cmach)
+    except Exception as e:   # noqa: BLE001
+        fail('monitor', 'not-picklable-mid-event', '%s: loads: %s: %s' % (tag, type(e).__name__, e))
+        return
+    cm = C.machine
+    if reqs is not None:
+        numb, rho = sn['numb'], []
+        for o, c in zip(sn['objs'], cobjs):
+            numb.add(c, numb.by_id[id(o)] + 100)
+            rho.append([numb.by_id[id(o)], numb.by_id[id(o)] + 100])
+        tabC = tables_of(C, numb, sn['sti'])
+        nums = [1] + kind_of(case) + enc_tables(sn['tab']) + [len(rho)] + [x for e in rho for x in e] + [0, 0, 0]
+        stats['midevent_lean'] = stats.get('midevent_lean', 0) + 1
+        reqs.append({'p': p, 'nums': nums, 'R': tabC, 'O': [], 'F': tabC, 'recctx': [], 'midevent': sn['where']})
+    scope_left = bool(cm.__dict__.get('_stack')) or any(
+        getattr(st, '_scope', None) for st in iter_states(cm))
+    ident_left = getattr(cm.__dict__.get('_ident'), 'current', 0) != 0
+    fpC = fingerprint(C)
+    if fpC != sn['fp'] or recs(C) != sn['recs']:
+        fail('monitor', 'structure-mid-event', '%s: copy differs from the original at that instant: %s'
+             % (tag, diff_paths(sn['fp'], fpC)), midevent_signature(case, scope_left, ident_left, 'structure'))
+    # a control at rest in the same model states
+    try:
+        K = build(case)
+        for it in case['history'][:p - 1]:
+            apply_item(case, K, it)
+        if len(K.machine.models) != len(cm.models):
+            stats['midevent_skipped'] = stats.get('midevent_skipped', 0) + 1
+            return
+        for mk, mc, raw in zip(K.machine.models, cm.models, sn['raw']):
+            call(K.machine.set_state, copy.deepcopy(raw), mk)
+            mk.__dict__['cnt'] = dict(mc.__dict__.get('cnt', {}))
+    except Exception:    # noqa: BLE001 — the state cannot be forced on a fresh machine: no control, no verdict
+        stats['midevent_skipped'] = stats.get('midevent_skipped', 0) + 1
+        return
+    if model_states(K) != model_states(C):
+        stats['midevent_skipped'] = stats.get('midevent_skipped', 0) + 1
+        return
+    baseC = [len(r) for r in recs(C)]
+    baseK = [len(r) for r in recs(K)]
+    cont = [it for it in case['conts'].get(str(p), case['conts'].get('0', [])) if it[0] != 'remove_model']
+    for i, it in enumerate(cont):
+        mark = next(SEQ)
+        MODREC.clear()
+        oc = apply_item(case, C, it)
+        rc = list(MODREC)
+        entC = entered_since(C, mark)
+        mark = next(SEQ)
+        MODREC.clear()
+        ok_ = apply_item(case, K, it)
+        entK = entered_since(K, mark)
+        if oc != ok_ or model_states(C) != model_states(K) or rc != list(MODREC):
+            fail('monitor', 'mid-event-continuation', '%s: continuation step %d %r: copy %r %r, control at rest %r %r'
+                 % (tag, i, it, oc, model_states(C), ok_, model_states(K)),
+                 midevent_signature(case, scope_left, ident_left, 'continuation'))
+            return
+        if entC != entK:
+            fail('monitor', 'mid-event-contexts', '%s: continuation step %d %r: copy entered %r, control at rest %r'
+                 % (tag, i, it, entC, entK), midevent_signature(case, scope_left, ident_left, 'contexts'))
+            return
+    rC = [r[b:] for r, b in zip(recs(C), baseC)]
+    rK = [r[b:] for r, b in zip(recs(K), baseK)]
+    if rC != rK:
+        fail('monitor', 'mid-event-recordings', '%s: callbacks seen by the copy %r, by the control at rest %r' % (tag, rC, rK),
+             midevent_signature(case, scope_left, ident_left, 'continuation'))
+
+
+def iter_states(mach):
+    def walk(d):
+        for st in d.values():
+            yield st
+            for x in walk(getattr(st, 'states', {})):
+                yield x
+    root = mach.__dict__.get('_stack')
+    top = root[0][1] if root else mach.states
+    return walk(top)
+
+
+def midevent_signature(case, scope_left, ident_left, clause):
+    """no open finding (the scope of the event in progress and IdentManager.current used to be pickled; repaired in
+    /repo b080617, cf88f30; witnesses in corpus/C15/): every failing clause is a violation"""
     return None
 
 
@@ -1023,11 +1257,23 @@ def run_case(case, want_requests=True):
     for p in range(len(hist) + 1):
         if p > 0:
             MODREC.clear()
-            oa = apply_item(case, A, hist[p - 1])
+            SNAP['out'] = []
+            SNAP['protocol'] = case['protocol']
+            SNAP['armed'] = case['opts']['queued'] is False
+            try:
+                oa = apply_item(case, A, hist[p - 1])
+            finally:
+                SNAP['armed'] = False
+            snaps = SNAP['out']
+            SNAP['out'] = []
             ra = list(MODREC)
             MODREC.clear()
             ob = apply_item(case, B, hist[p - 1])
-            if oa != ob or ra != list(MODREC) or model_states(A) != model_states(B):
+            rb = list(MODREC)
+            for sn in snaps:
+                stats['midevent_' + sn['where']] = stats.get('midevent_' + sn['where'], 0) + 1
+                judge_midevent(case, p, sn, fail, stats, reqs if want_requests else None)
+            if oa != ob or ra != rb or model_states(A) != model_states(B):
                 # A has been pickled p times, B never: dumps must not disturb the original
                 fail('monitor', 'dumps-disturbs-original', 'prefix %d item %r: pickled original %r %r, control %r %r'
                      % (p, hist[p - 1], oa, model_states(A), ob, model_states(B)))
@@ -1372,7 +1618,8 @@ def work(tier, seed, wid, cls_names, n):
                              ('self_model', str(any(m['kind'] == 'self' for m in case['models']))),
                              ('ctx_mode', case['ctx_mode'])):
                 ex.stats[key][val] = ex.stats[key].get(val, 0) + 1
-            for key in ('snapshots', 'cont_steps', 'moved', 'exceptions', 'lockprobes', 'lean_steps', 'control_mismatch', 'pokes'):
+            for key in ('snapshots', 'cont_steps', 'moved', 'exceptions', 'lockprobes', 'lean_steps', 'control_mismatch', 'pokes',
+                        'midevent_callback', 'midevent_concurrent', 'midevent_lean', 'midevent_skipped'):
                 ex.stats['steps'][key] = ex.stats['steps'].get(key, 0) + st.get(key, 0)
             ex.traces_validated += st['snapshots']
             if st['snapshots'] >= 2 and st['moved'] >= 1:
@@ -1505,7 +1752,8 @@ class C15(runner.Check):
     level = 'proof'
     strict_correspondence = True
     theorems = ('TM.C15_rekey', 'TM.C15_queues', 'TM.C15_queues_separate', 'TM.C15_graphs', 'TM.C15_models', 'TM.C15_tables_full', 'TM.C15_full',
-                'TM.C15_behaviour_invariant', 'TM.C15_held_locks_copy', 'TM.C15_held_locks_orig', 'TM.C15_frame')
+                'TM.C15_behaviour_invariant', 'TM.C15_held_locks_copy', 'TM.C15_held_locks_orig', 'TM.C15_frame',
+                'TM.C15_midevent_full', 'TM.C15_at_rest')
     manifest = dict(
         level='proof', design='DESIGN.md 4/C15; design_notes/C15.md',
         text="Partial. Lean 4 theorems over the identity-keyed side tables (model_context_map, model_graphs, "
@@ -1549,11 +1797,13 @@ class C15(runner.Check):
         return ['callbacks are given by name (model method names or dotted paths); callables that pickle cannot '
                 'serialise by reference (lambdas, closures) are outside the property',
                 'model classes are importable and hashable by identity (LockedMachine.__getstate__ uses models as dict keys)',
-                'snapshots are taken at quiescent points only (no event in progress, queues empty). A snapshot taken '
-                'INSIDE a callback is outside the statement and not generated: it carries IdentManager.current (the '
-                'pickling thread then runs the copy of a locked machine without entering contexts) and, for hierarchical '
-                'machines pickled inside a nested scope, a non-empty scope stack — both by reading, both consequences of '
-                'pickling an event in progress',
+                'snapshots are taken at every prefix of the history (machine at rest) AND, for machines that are not '
+                'queued (queues stay empty, so the exclusion of the statement does not apply), while an event is being '
+                'processed: from a named callback of the event (a persistence hook) and, for the async classes, by the '
+                'driving coroutine while another model\'s event is suspended in a slow callback. Such a copy is judged '
+                'against a control AT REST with the same configuration and the same model states: the unfinished part of '
+                'the event lives on the call stack of the original, not in the machine (reading of "reacts like the '
+                'original" for a snapshot that has no call stack)',
                 'a copy is itself a machine in a reachable state: copy-of-copy(-of-copy) chains are judged like first '
                 'copies; pickling THROUGH a model (pickle.dumps(model), [models], (model, machine)) is pickling the '
                 'machine and is judged the same way, except that the graph of the root model may lack the active mark '
